@@ -285,7 +285,7 @@ func useLocked(s *shard, op string, fd int) *FDInfo {
 }
 
 func noteErr(op string, fd int, err error) {
-	if err == unix.EBADF {
+	if err == unix.EBADF && fd >= 0 { // a negative value is not a descriptor number (close(-1) on an error path)
 		alarm("ebadf", op, fd, "system call returned EBADF")
 	}
 }
@@ -312,11 +312,13 @@ const (
 	CDup
 	CEfdWrite
 	CEfdRead
+	CEventfd
+	CEpollCreate
 	nCall
 )
 
 var callNames = [nCall]string{"read", "write", "writev", "accept4", "epoll_ctl_add", "epoll_ctl_mod", "epoll_ctl_del",
-	"close", "epoll_wait", "recvfrom", "sendto", "send", "socket", "dup", "efd_write", "efd_read"}
+	"close", "epoll_wait", "recvfrom", "sendto", "send", "socket", "dup", "efd_write", "efd_read", "eventfd", "epoll_create1"}
 
 // CallName names a call class.
 func CallName(c int) string { return callNames[c] }
@@ -743,6 +745,18 @@ func Close(fd int) (err error) {
 			spinSleep(r.Ns)
 		}
 	}
+	if _, isForeign := foreign.Load(fd); isForeign {
+		// the framework is about to close a descriptor that belongs to somebody else: report it and do NOT carry the
+		// close out (the process would lose e.g. its standard input); the behaviour only differs once the violation exists
+		s := sh(fd)
+		s.mu.Lock()
+		useLocked(s, "close", fd)
+		s.mu.Unlock()
+		return nil
+	}
+	if fd < 0 {
+		return unix.Close(fd)
+	}
 	createMu.Lock()
 	s := sh(fd)
 	s.mu.Lock()
@@ -768,6 +782,9 @@ func Close(fd int) (err error) {
 }
 
 func EpollCreate1(flag int) (fd int, err error) {
+	if r := consult(CEpollCreate, -1); r != nil && r.Action == AErrno {
+		return -1, r.Errno
+	}
 	createMu.Lock()
 	fd, err = unix.EpollCreate1(flag)
 	if err == nil {
@@ -786,6 +803,9 @@ func EpollCreate1(flag int) (fd int, err error) {
 }
 
 func Eventfd(initval uint, flags int) (fd int, err error) {
+	if r := consult(CEventfd, -1); r != nil && r.Action == AErrno {
+		return -1, r.Errno
+	}
 	createMu.Lock()
 	fd, err = unix.Eventfd(initval, flags)
 	if err == nil {
